@@ -229,7 +229,8 @@ theorem stab_endP {env : Env} {t2 t3 s' : State}
       fun m => by rw [(hfld m).2.2.1]; exact A3.ahh.marks m⟩
   have stale' : ∀ m, s'.isStale m = t3.isStale m := fun m => by
     rw [isStale_V F', isStale_V A3.frag, G3.staleOf]
-  have KF : PKF t3 s' := ⟨xf, fun m => (hfld m).2.2.2.1, stale', E.top, hpk, E.vars⟩
+  have KF : PKF t3 s' := ⟨xf, fun m => (hfld m).2.2.2.1, stale', E.top, hpk, E.vars,
+    fun m => by obtain ⟨b, hb⟩ := Ev.node m; rw [hb]⟩
   have PK' : PKOK env s' := PKOK.of_frame KF A3.pk
     (fun o ob' ho => by rw [E.observers] at ho; exact ⟨ob', ho, rfl⟩)
     (fun m o ho => by
